@@ -143,6 +143,8 @@ fn main() {
     });
     // hidden-state monitor: sampled events of all shards again, mixed, on one thread (ctx::run_mix)
     run_mix(&mut ctx, seed, |c, e| exec_dispatch(c, e));
+    // and concurrently: the same sample on several threads at once (shared state inside the library)
+    run_mix_concurrent(&mut ctx, seed, cli.threads, |c, e| exec_dispatch(c, e));
     let mut required = Vec::new();
     for (n, ty) in &shards {
         for op in ["zero", "one", "parity", "majority", "threshold", "equals", "symmetric"] {
